@@ -227,6 +227,12 @@ func DecodeMessage(data []byte) (Message, error) {
 // are parsed exactly, rather than via float64, so that values beyond 2^53 are
 // preserved.
 func decodeID(raw json.RawMessage) (ID, error) {
+	return DecodeID(raw)
+}
+
+// DecodeID decodes the JSON form of a request ID (null, a string, or a
+// number). Integers that fit an int64 are parsed exactly.
+func DecodeID(raw json.RawMessage) (ID, error) {
 	if len(raw) == 0 {
 		return ID{}, nil
 	}
